@@ -8,6 +8,8 @@
 -/
 import ClientGoVerif.Proofs.MvccWrites
 import ClientGoVerif.Proofs.Perc
+import ClientGoVerif.Proofs.MvccTemporal
+import ClientGoVerif.Proofs.MvccAtomic
 namespace CGV.Props.C03
 open CGV CGV.Mvcc CGV.Perc
 
@@ -32,6 +34,29 @@ theorem rolled_back_key_refuses_commit (s : Store) (k : Bytes) (T C : Nat) (c : 
     (hc : txnCommitInfo (getEntry s.kv k).writes T = some c) (hv : c.vt = .rollback) :
     commitKey s k T C = .error .retryable := by
   simp [commitKey, hl, hc, hv]
+
+/-- what makes a success answer safe to give: once the commit record is in the store, NO later command sequence —
+    including rollback / cleanup / resolve-as-rolled-back requests for the same transaction from confused resolvers —
+    can remove it or put a rollback record of the transaction next to it (GC and destroy-range aside) -/
+theorem success_answer_cannot_be_undone (w : Write) (k : Bytes) (s : Store) (cs : List Cmd) (hs : SInv s)
+    (hok : OkAll s cs) (hg : GuardAll (fun _ lab => lab.keepsRecord w) k s cs)
+    (hw : w ∈ (getEntry s.kv k).writes) (hdata : w.vt ≠ .rollback) :
+    w ∈ (getEntry (runAll s cs).kv k).writes ∧
+      ∀ w2 ∈ (getEntry (runAll s cs).kv k).writes, w2.startTS = w.startTS → w2.vt ≠ .rollback := by
+  have hin := runAll_record_stays w k s cs hs hok hg hw
+  refine ⟨hin, fun w2 h2 hst hv => ?_⟩
+  exact hdata (((runAll_inv s cs hs hok).2 k).nomix w2 h2 w hin hst hv)
+
+/-- the store's answer to a commit request is truthful: an error answer changed nothing … -/
+theorem commit_error_means_not_applied (s s' : Store) (keys : List Bytes) (T C : Nat) (err : KErr)
+    (h : Mvcc.commit s keys T C = (s', some err)) : s'.kv = s.kv := commit_error_changes_nothing s s' keys T C err h
+
+/-- … and a success answer means every requested key that carried the transaction's prewrite lock now has its data
+    record at the requested commit ts (which, by `success_answer_cannot_be_undone`, no later run can take away) -/
+theorem commit_success_means_applied (s s' : Store) (keys : List Bytes) (T C : Nat) (hs : SInv s) (hn : keys.Nodup)
+    (hC : T < C) (h : Mvcc.commit s keys T C = (s', none)) (k : Bytes) (hk : k ∈ keys) (l : Lock)
+    (hl : (getEntry s.kv k).lock = some l) (hT : l.startTS = T) (hop : l.op ≠ .pessimisticLock) :
+    HasData (getEntry s'.kv k) T C := commit_success_applied s s' keys T C hs hn hC h k hk l hl hT hop
 
 theorem owner_rollback_only_before_commit_point (m m' : MState) (client : String) (fate : Fate) (S : Nat) (keys : List Bytes)
     (h : Monitor.step m (.rollback client fate S keys) = .ok m') :
